@@ -19,7 +19,8 @@ def sh(cmd, **kw):
 def main():
     args = [a for a in sys.argv[1:] if not a.startswith('--')]
     inplace = '--inplace' in sys.argv
-    ids = args or sorted(d for d in os.listdir(SEEDED) if os.path.isdir(os.path.join(SEEDED, d)))
+    ids = args or sorted(d for d in os.listdir(SEEDED) if os.path.isdir(os.path.join(SEEDED, d))
+                         and not json.load(open(os.path.join(SEEDED, d, 'meta.json'))).get('obsolete'))
     results = {}
     rp = os.path.join(SEEDED, 'RESULTS.json')
     if os.path.exists(rp):
